@@ -32,10 +32,28 @@ type capture struct {
 	keys  [][2]string
 }
 
-func (c *capture) Name() string { return "capture" }
+func (c *capture) Name() string                                           { return "capture" }
 func (c *capture) SendEvent(ctx context.Context, e *gostatsd.Event) error { return nil }
+
+// sortedView: a timer's values are a multiset (Flush sorts them for plain timers and leaves histogram-tagged ones in
+// arrival order): the view is rendered with every value list sorted
+func sortedView(mm *gostatsd.MetricMap) *gostatsd.MetricMap {
+	out := *mm
+	out.Timers = gostatsd.Timers{}
+	mm.Timers.Each(func(n, t string, tm gostatsd.Timer) {
+		vs := append([]float64(nil), tm.Values...)
+		sort.Float64s(vs)
+		tm.Values = vs
+		if out.Timers[n] == nil {
+			out.Timers[n] = map[string]gostatsd.Timer{}
+		}
+		out.Timers[n][t] = tm
+	})
+	return &out
+}
+
 func (c *capture) SendMetricsAsync(ctx context.Context, mm *gostatsd.MetricMap, cb gostatsd.SendCallback) {
-	r := mmc.Render(mm)
+	r := mmc.Render(sortedView(mm))
 	var k [2]string
 	found := false
 	each := func(n, t string) {
@@ -72,13 +90,13 @@ func (c *capture) count() int {
 const interval = 10 * time.Second
 
 type pipeline struct {
-	n       int
-	cap     *capture
-	bh      *statsd.BackendHandler
-	in      chan []*statsd.Datagram
-	mock    *clock.Mock
-	cancel  context.CancelFunc
-	ctx     context.Context
+	n      int
+	cap    *capture
+	bh     *statsd.BackendHandler
+	in     chan []*statsd.Datagram
+	mock   *clock.Mock
+	cancel context.CancelFunc
+	ctx    context.Context
 }
 
 func newPipeline(n int, expireAll bool) *pipeline {
@@ -535,7 +553,7 @@ func gen(args []string) {
 	n := hx.ArgInt(args, "--n", 300)
 	st := hx.NewStats("scripted histories of 3..25 ops (batch of 1..6 datapoints from one of 3 senders | flush of all shards | flush of some shards) over a pool of 1..6 series (four types, shared names, dyadic rates) with 1..8 shards, persist or expire-at-every-flush; non-trivial = some series receives data in at least two batches with a flush in between; distinct by case text")
 	names := []string{"a", "b", "req.count", "x.y", "lat"}
-	tagPool := []string{"t:1", "t:2", "env:p", "z"}
+	tagPool := []string{"t:1", "t:2", "env:p", "z", "gsd_histogram:10_50"}
 	ips := []string{"10.0.0.1", "10.0.0.2", "h3"}
 	rates := []float64{1, 1, 0.5, 0.25, 0.125}
 	members := []string{"u1", "u2", "u3"}
